@@ -115,6 +115,13 @@ theorem C19_table_invariants (sort1 sort2 : List Item → List Item) (h1 : IsSor
   · exact Or.inl h'
   · exact Or.inr h'
 
+/-- **`Sort()` is idempotent**: calling `Sort()` again on a sorted table (any admissible behaviour of the two further
+    `sort.Sort` calls) returns exactly the same table — nothing is merged, cut or reordered. -/
+theorem C19_sort_idempotent (sort1 sort2 sort3 sort4 : List Item → List Item) (h1 : IsSort sort1) (h2 : IsSort sort2)
+    (h3 : IsSort sort3) (h4 : IsSort sort4) (stored : List Item) (hv : ∀ r ∈ stored, 0 < r.1 ∧ r.1 ≤ r.2) :
+    sortTable sort3 sort4 (sortTable sort1 sort2 stored) = sortTable sort1 sort2 stored :=
+  sortTable_idem sort1 sort2 sort3 sort4 h1 h2 h3 h4 stored hv
+
 /-! ### `IPTable.Update` histories -/
 
 /-- **`Update` replaces**: after any history of `Update` calls (any previous tables, nil included, any version strings —
@@ -149,6 +156,23 @@ theorem C19_update_nil (t0 : IPTableM) (hist : List (Option IPItemsM)) (ip : Opt
   rw [C19_update_replaces]
   refine ⟨rfl, rfl, fun t => ?_⟩
   cases t <;> rfl
+
+/-- **Swap while searching**: `Search` reads `t.ipItems` once (under the lock) and answers from that snapshot, so with
+    updates that only ever install `a` or `b` (in any order, any number of times, starting from one of them) every
+    answer — whenever the snapshot is taken — is `a`'s answer or `b`'s answer, never a mixture. -/
+theorem C19_swap_answers (a b : Option IPItemsM) (t0 : IPTableM) (ht : t0 = a ∨ t0 = b)
+    (hist : List (Option IPItemsM)) (hh : ∀ x ∈ hist, x = a ∨ x = b) (ip : Option Nat) :
+    (t0.updates hist).search ip = IPTableM.search a ip ∨ (t0.updates hist).search ip = IPTableM.search b ip := by
+  have key : t0.updates hist = a ∨ t0.updates hist = b := by
+    induction hist generalizing t0 with
+    | nil => exact ht
+    | cons x r ih =>
+      unfold IPTableM.updates
+      simp only [List.foldl_cons]
+      exact ih (IPTableM.update t0 x) (hh x (by simp)) (fun y hy => hh y (by simp [hy]))
+  rcases key with e | e <;> rw [e]
+  · exact Or.inl rfl
+  · exact Or.inr rfl
 
 /-- the reload gate of `txt_load.CheckAndLoad`: a file is skipped exactly when its version is non-empty and equal to
     the version in service (a file without version is always reloaded) -/
